@@ -8,9 +8,13 @@
 package sched
 
 import (
+	"bytes"
 	"math/rand"
+	"runtime"
+	"strconv"
 	"strings"
 	"sync"
+	"sync/atomic"
 	"time"
 
 	"github.com/olric-data/olric/internal/verifhook"
@@ -59,6 +63,56 @@ type Controller struct {
 	gates  []*Gate
 	counts map[string]int
 	delays int
+	rec    *Recording
+	recOn  atomic.Bool
+}
+
+// Event is one arrival at a point: its position in the order in which the arrivals were registered (under the controller's
+// mutex, i.e. while the goroutine still holds whatever lock protects the change the point names), the goroutine, the
+// point and its arguments.
+type Event struct {
+	Seq   int
+	G     int64
+	Point string
+	KV    []any
+}
+
+// Recording collects the arrivals that match a filter.
+type Recording struct {
+	match  func(point string, kv []any) bool
+	Events []Event
+}
+
+// Record starts recording (replacing an earlier recording); Stop returns what was recorded.
+func (c *Controller) Record(match func(point string, kv []any) bool) {
+	c.mu.Lock()
+	c.rec = &Recording{match: match}
+	c.recOn.Store(true)
+	c.mu.Unlock()
+}
+
+func (c *Controller) Stop() []Event {
+	c.mu.Lock()
+	defer c.mu.Unlock()
+	if c.rec == nil {
+		return nil
+	}
+	evs := c.rec.Events
+	c.rec = nil
+	c.recOn.Store(false)
+	return evs
+}
+
+// goid is the id of the calling goroutine (ids are never re-used within a process).
+func goid() int64 {
+	var buf [64]byte
+	b := buf[:runtime.Stack(buf[:], false)]
+	b = bytes.TrimPrefix(b, []byte("goroutine "))
+	if i := bytes.IndexByte(b, ' '); i > 0 {
+		n, _ := strconv.ParseInt(string(b[:i]), 10, 64)
+		return n
+	}
+	return 0
 }
 
 var (
@@ -78,9 +132,16 @@ func Install(seed int64) *Controller {
 }
 
 func (c *Controller) handle(point string, kv []any) {
+	var g int64
+	if c.recOn.Load() { // the stack walk is not free
+		g = goid()
+	}
 	c.mu.Lock()
 	c.counts[point]++
-	var g *Gate
+	if c.rec != nil && (c.rec.match == nil || c.rec.match(point, kv)) {
+		c.rec.Events = append(c.rec.Events, Event{Seq: len(c.rec.Events) + 1, G: g, Point: point, KV: append([]any(nil), kv...)})
+	}
+	var gt *Gate
 	for _, x := range c.gates {
 		if x.taken || x.point != point || (x.match != nil && !x.match(kv)) {
 			continue
@@ -90,11 +151,11 @@ func (c *Controller) handle(point string, kv []any) {
 			continue
 		}
 		x.taken = true
-		g = x
+		gt = x
 		break
 	}
 	var d time.Duration
-	if g == nil {
+	if gt == nil {
 		for _, r := range c.rules {
 			if strings.HasPrefix(point, r.Prefix) && c.rng.Float64() < r.Prob {
 				d = time.Duration(1 + c.rng.Int63n(int64(r.Max)))
@@ -104,16 +165,16 @@ func (c *Controller) handle(point string, kv []any) {
 		}
 	}
 	c.mu.Unlock()
-	if g != nil {
+	if gt != nil {
 		cp := append([]any(nil), kv...)
 		select {
-		case g.arrived <- cp:
+		case gt.arrived <- cp:
 		default:
 		}
-		if g.fn != nil {
-			g.fn(cp)
+		if gt.fn != nil {
+			gt.fn(cp)
 		}
-		<-g.release
+		<-gt.release
 		return
 	}
 	if d > 0 {
